@@ -88,6 +88,9 @@ def tr (a : List String) (r : String := "R f:%61 \"f-0\"") : List String := ["re
 -- the runtime entries were not remapped: they designate the other function now
 #guard has (judge (mkCase []) (tr (repl dumpA2 "D c17/w/t/a ro 1:0:1,1:0:0" "D c17/w/t/a ro 1:0:0,1:0:1"))) "runtime-entry-lost-its-function"
 #guard has (judge (mkCase []) (tr (repl dumpA2 "D c17/w/t/a ro 1:0:1,1:0:0" "D c17/w/t/a ro 2:0:1,1:0:0"))) "runtime-table-differs"
+-- a runtime entry with a function number outside the table / two runtime indices sharing a slot
+#guard has (judge (mkCase []) (tr (repl dumpA2 "D c17/w/t/a ro 1:0:1,1:0:0" "D c17/w/t/a ro 1:0:1,1:0:7"))) "runtime-table-malformed"
+#guard has (judge (mkCase []) (tr (repl dumpA2 "D c17/w/t/a ct 0 0 0 0 -" "D c17/w/t/a ct 0 0 0 1 -"))) "runtime-table-malformed"
 -- calls
 #guard has (judge (mkCase []) (tr dumpA2 "R f:%61 \"f-dflt\"")) "string-case-unreachable f:%61"
 #guard has (judge (dropLine (mkCase []) "expect f:%61 f-0") (tr dumpA2 "R f:%61 \"f-dflt\"")) "call-results-differ"
